@@ -217,3 +217,133 @@ def if_chain_containing(node, fn):
                 out.append((a, 'orelse'))
         child = a
     return list(reversed(out))
+
+
+def absent(r, idx, construct, detail, loc='', expected=None, found=None):
+    """Report that an expected construct was NOT FOUND.  This is a definite break only when every newly extracted helper
+    could be inlined (so the reviewed function was seen whole); otherwise the construct may have moved into a callee."""
+    if getattr(idx, 'unreviewed', None):
+        r.undecided(construct, detail + ' [not definite: unreviewed helper(s) %s could not be inlined and may contain it]'
+                    % ', '.join(q.rsplit('.', 1)[-1] for q in idx.unreviewed[:3]), loc)
+    else:
+        r.violation(construct, detail, loc, expected=expected, found=found)
+
+
+# ------------------------------------------------------------------ views that hide layout differences
+def flat_env(fn):
+    """name -> value for locals bound exactly once (outside loops) by `x = e` or by tuple destructuring
+    `a, b = (e1, e2)`; used to see through temporaries whatever their layout."""
+    counts, vals = {}, {}
+
+    def bump(name, k=2):
+        counts[name] = counts.get(name, 0) + k
+
+    def bind(t, v, in_loop):
+        if isinstance(t, ast.Name):
+            bump(t.id, 2 if in_loop else 1)
+            vals[t.id] = v
+        elif isinstance(t, (ast.Tuple, ast.List)) and isinstance(v, (ast.Tuple, ast.List)) and len(t.elts) == len(v.elts):
+            for a, b in zip(t.elts, v.elts):
+                bind(a, b, in_loop)
+        else:
+            for x in ast.walk(t):
+                if isinstance(x, ast.Name) and isinstance(x.ctx, ast.Store):
+                    bump(x.id)
+    for n in walk_own(fn):
+        if isinstance(n, ast.Assign):
+            in_loop = enclosing_loop(n, fn) is not None
+            for t in n.targets:
+                bind(t, n.value, in_loop)
+        elif isinstance(n, ast.AugAssign):
+            for x in ast.walk(n.target):
+                if isinstance(x, ast.Name):
+                    bump(x.id)
+        elif isinstance(n, (ast.For, ast.comprehension)):
+            for x in ast.walk(n.target):
+                if isinstance(x, ast.Name):
+                    bump(x.id)
+        elif isinstance(n, ast.With):
+            for it in n.items:
+                if it.optional_vars is not None:
+                    for x in ast.walk(it.optional_vars):
+                        if isinstance(x, ast.Name):
+                            bump(x.id)
+    params = set(param_names(fn))
+    if fn.args.vararg:
+        params.add(fn.args.vararg.arg)
+    if fn.args.kwarg:
+        params.add(fn.args.kwarg.arg)
+    return {k: v for k, v in vals.items() if counts.get(k) == 1 and k not in params}
+
+
+def expand(expr, env, depth=6):
+    """Substitute flat_env temporaries into expr (bounded)."""
+    cur = expr
+    for _ in range(depth):
+        new = nf.subst(cur, env)
+        if ast.dump(new) == ast.dump(cur):
+            break
+        cur = new
+    return cur
+
+
+def unary_function(expr, fn, idx=None, fi=None):
+    """(parameter name, body expression) of a one-argument function given as lambda, as the name of a nested def of `fn`
+    with a single `return`, or as a reference to a (static)method / module function resolved through the index."""
+    if isinstance(expr, ast.Lambda):
+        a = expr.args
+        if len(a.args) == 1 and not (a.vararg or a.kwarg or a.kwonlyargs or a.defaults):
+            return a.args[0].arg, expr.body
+        return None
+    target = None
+    if isinstance(expr, ast.Name):
+        for n in walk_own(fn):
+            if isinstance(n, ast.FunctionDef) and n.name == expr.id:
+                target = n
+    if target is None and idx is not None and fi is not None and isinstance(expr, (ast.Name, ast.Attribute)):
+        try:
+            targets, how = idx.resolve_call(fi, ast.Call(func=expr, args=[], keywords=[]))
+        except Exception:
+            targets = []
+        targets = [t for t in targets if not isinstance(t, tuple)]
+        if len(targets) == 1:
+            target = targets[0].node
+    if target is None:
+        return None
+    a = target.args
+    names = [x.arg for x in a.args]
+    if names and names[0] in ('self', 'cls') and len(names) == 2:
+        names = names[1:]
+    body = strip_docstring(target.body)
+    if len(names) == 1 and len(body) == 1 and isinstance(body[0], ast.Return) and body[0].value is not None \
+            and not (a.vararg or a.kwarg or a.kwonlyargs):
+        return names[0], body[0].value
+    return None
+
+
+class Iteration(object):
+    """One iteration construct: `for T in S: ... acc.append(E)` or a comprehension `[E for T in S if C]`, seen alike."""
+
+    def __init__(self, kind, node, target, seq, elt=None, conds=(), acc=None):
+        self.kind = kind        # 'for' | 'comp'
+        self.node = node
+        self.target = target
+        self.seq = seq
+        self.elt = elt
+        self.conds = list(conds)
+        self.acc = acc
+
+
+def unwrap_seq(seq):
+    """Strip order/representation-preserving wrappers: list(S), tuple(S), iter(S) -> S; enumerate(S, start=k) -> (S, k)."""
+    start = None
+    while isinstance(seq, ast.Call) and isinstance(seq.func, ast.Name):
+        if seq.func.id in ('list', 'tuple', 'iter') and len(seq.args) == 1 and not seq.keywords:
+            seq = seq.args[0]
+        elif seq.func.id == 'enumerate' and seq.args:
+            st = lib.get_kw(seq, 'start', 1)
+            start = 0 if st is None else nf.const_value(st, 'x')
+            seq = seq.args[0]
+        else:
+            break
+    return seq, start
